@@ -103,11 +103,14 @@ const (
 	actTestament
 	actUnregisterWhileServing // b calls a.proc (pending), then a unregisters a.proc
 	actSubscribeUnsubscribe
+	actSubscribeHistory // a subscribes to a topic with configured event history
 	actCount
 )
 
 func vC05(nActs int, acts []int, ways int) {
-	r := vNewRouter(&Config{RealmConfigs: []*RealmConfig{{URI: "realm1", AnonymousAuth: true, AllowDisclose: false, EnableMetaKill: true}}})
+	r := vNewRouter(&Config{RealmConfigs: []*RealmConfig{{URI: "realm1", AnonymousAuth: true, AllowDisclose: false, EnableMetaKill: true,
+		TopicEventHistoryConfigs: []*TopicEventHistoryConfig{{Topic: "hist.topic", MatchPolicy: wamp.MatchExact, Limit: 2}}}}})
+	base := vCountClientState(r.realms["realm1"]) // the configured history subscription stays for ever
 	a := vAttach(r, "realm1", nil, 64)
 	// callee b lacks progressive_call_invocations on purpose
 	bRoles := wamp.Dict{
@@ -178,6 +181,11 @@ func vC05(nActs int, acts []int, ways int) {
 			if sd != nil {
 				a.send(&wamp.Unsubscribe{Request: 20, Subscription: sd.Subscription})
 			}
+		case actSubscribeHistory:
+			a.send(&wamp.Subscribe{Request: 21, Topic: "hist.topic"})
+			_, n := vFindMsg[*wamp.Subscribed](a.drain())
+			vAssert("subscribed-to-history-topic", n == 1)
+			vCover("history-topic-subscriber")
 		}
 		a.drain()
 	}
@@ -225,6 +233,7 @@ func vC05(nActs int, acts []int, ways int) {
 		vCover("testament-published")
 	}
 	// nothing is routed to the ended session any more
+	b.send(&wamp.Publish{Request: 29, Topic: "hist.topic"})
 	b.send(&wamp.Publish{Request: 30, Topic: "a.topic", Options: wamp.Dict{"acknowledge": true, "exclude_me": false}})
 	b.send(&wamp.Call{Request: 31, Procedure: "a.proc"})
 	after := b.drain()
@@ -247,11 +256,11 @@ func vC05(nActs int, acts []int, ways int) {
 	// --- the other session leaves as well: the realm is empty again ---
 	b.send(&wamp.Goodbye{Reason: wamp.CloseRealm, Details: wamp.Dict{}})
 	b.drain()
-	vAssert("realm-holds-no-client-state", vCountClientState(rl) == 0)
+	vAssert("realm-holds-no-client-state", vCountClientState(rl) == base)
 	vCover("cleanup-checked")
 }
 
-var vC05Acts = []int{actSubscribe, actRegister, actCallPending, actServePending, actRefusedCall, actRefusedCall2, actTestament, actUnregisterWhileServing, actSubscribeUnsubscribe}
+var vC05Acts = []int{actSubscribe, actRegister, actCallPending, actServePending, actRefusedCall, actRefusedCall2, actTestament, actUnregisterWhileServing, actSubscribeUnsubscribe, actSubscribeHistory}
 
 func Harness_C05_Leave_1() { vC05(1, vC05Acts, 4) }
 func Harness_C05_Leave_2() { vC05(2, vC05Acts, 4) }
